@@ -288,6 +288,11 @@ def async_case(draw, driver=None):
             inj.append({"t": -0.01, "kind": "stale-answer", "value": v})
         else:
             inj.append({"t": -0.01, "kind": "stale-answer", "value": v})
+    if drv == "hasseb" and draw(st.booleans()):
+        # the hasseb firmware keeps sending 'no data available' reports between the meaningful ones
+        for _ in range(draw(st.integers(1, 6))):
+            inj.append({"t": draw(st.sampled_from([0.0005, 0.004, 0.011, 0.026, 0.0271, 0.033, 0.045, 0.0621, 0.07, 0.1, 0.13, 0.2])),
+                        "kind": "idle"})
     if inj:
         case["inject"] = inj
     return case
@@ -324,8 +329,10 @@ def features(case):
         return f
     if len(case["callers"]) > 1:
         f.append("multi-caller")
-    if case.get("inject"):
+    if any(x["kind"] == "stale-answer" for x in case.get("inject", [])):
         f.append("stale-answer")
+    if any(x["kind"] == "idle" for x in case.get("inject", [])):
+        f.append("hasseb-idle-reports")
     for c in case["callers"]:
         f.append("caller:" + c["kind"])
         for x in c["cmds"]:
